@@ -12,6 +12,7 @@ import (
 	custodytypes "github.com/KiraCore/sekai/x/custody/types"
 	govtypes "github.com/KiraCore/sekai/x/gov/types"
 	mstypes "github.com/KiraCore/sekai/x/multistaking/types"
+	recoverytypes "github.com/KiraCore/sekai/x/recovery/types"
 	slashingtypes "github.com/KiraCore/sekai/x/slashing/types"
 	spendingtypes "github.com/KiraCore/sekai/x/spending/types"
 	stakingtypes "github.com/KiraCore/sekai/x/staking/types"
@@ -390,6 +391,31 @@ func (w *world) mixedTx() []TxSpec {
 	}
 }
 
+// structuredTx: transaction shapes beyond one message / one signer / one coin: repeated message types in one
+// transaction, several signers with a separate fee payer, coin sets of 2-3 denominations, lists with repeated entries
+func (w *world) structuredTx() TxSpec {
+	i, j := w.r.Intn(nAcc), w.r.Intn(nAcc)
+	if j == i {
+		j = (i + 1) % nAcc
+	}
+	ai, aj := w.acc[i].Addr, w.acc[j].Addr
+	switch w.r.Intn(5) {
+	case 0: // the same message type three times
+		return tx(i, fmt.Sprintf("a%d 3x send", i), banktypes.NewMsgSend(ai, aj, coins("ukex", 11)), banktypes.NewMsgSend(ai, aj, coins("ubtc", 12)), banktypes.NewMsgSend(ai, w.acc[(j+1)%nAcc].Addr, coins("ukex", 13)))
+	case 1: // two signers, the first pays the fee
+		t := tx(i, fmt.Sprintf("a%d pays, a%d co-signs", i, j), banktypes.NewMsgSend(ai, aj, coins("ukex", 21)), banktypes.NewMsgSend(aj, ai, coins("ukex", 22)))
+		t.Signers = []int{i, j}
+		return t
+	case 2: // coin set of three denominations
+		return tx(i, fmt.Sprintf("a%d 3 denoms", i), banktypes.NewMsgSend(ai, aj, sdk.NewCoins(sdk.NewInt64Coin("ukex", 5), sdk.NewInt64Coin("ubtc", 6), sdk.NewInt64Coin("xeth", 7))))
+	case 3: // list with repeated and permuted entries
+		infos := []govtypes.IdentityInfoEntry{{Key: "twitter", Info: "x"}, {Key: "contact", Info: "c"}, {Key: "twitter", Info: "y"}, {Key: "Contact", Info: "C"}}
+		return tx(i, fmt.Sprintf("a%d repeated keys", i), govtypes.NewMsgRegisterIdentityRecords(ai, infos), &govtypes.MsgDeleteIdentityRecords{Address: ai, Keys: []string{"contact", "contact", "twitter"}})
+	default: // address rotation (another module rewriting gov / staking / spending records of the account)
+		return tx(i, fmt.Sprintf("a%d rotate", i), &recoverytypes.MsgRotateRecoveryAddress{FeePayer: ai.String(), Address: ai.String(), Recovery: aj.String(), Proof: "proof"})
+	}
+}
+
 func reSigner(m sdk.Msg, a sdk.AccAddress) sdk.Msg {
 	switch x := m.(type) {
 	case *govtypes.MsgRegisterIdentityRecords:
@@ -426,6 +452,12 @@ func genHistory(r *hx.Rng, seed uint64, i int) *History {
 	h.Blocks = append(h.Blocks, BlockSpec{Req: abci.BlockReq{Dt: 5, Proposer: 0}, Txs: setup})
 	for b := 0; b < nb; b++ {
 		bs := BlockSpec{Req: w.blockReq(400)}
+		if r.Chance(60) {
+			bs.Ns = r.Range(1, 999_999_999)
+		}
+		if r.Chance(35) {
+			bs.Txs = append(bs.Txs, w.structuredTx())
+		}
 		for n := 1 + r.Intn(5); n > 0; n-- {
 			bs.Txs = append(bs.Txs, w.mixedTx()...)
 		}
